@@ -177,6 +177,10 @@ func c09Progs(id int, rng *rand.Rand, feat map[string]int) []*Prog {
 			site(nv+"p := &v\nrec(TAG, p."+m+"("+arg+"))\nrec(TAG, v)", "method-call-ptr")
 			site(nv+"f := v."+m+"\nv = §new"+fmt.Sprint(i)+"(9)\nrec(TAG, f("+arg+"))", "method-value")
 			site(nv+"f := (&v)."+m+"\nrec(TAG, f("+arg+"), f("+arg+"))\nrec(TAG, v)", "method-value-ptr")
+			// a method value taken through a pointer binds a copy of the pointee for value-receiver methods:
+			// the receiver is replaced before the call
+			site(nv+"p := &v\nf := p."+m+"\nv = §new"+fmt.Sprint(i)+"(9)\nrec(TAG, f("+arg+"))\nrec(TAG, v)", "method-value-ptr-then-replace")
+			site(nv+"ps := []*"+t.name+"{&v}\nf := ps[0]."+m+"\n*ps[0] = §new"+fmt.Sprint(i)+"(7)\nrec(TAG, f("+arg+"))", "method-value-ptr-elem-then-replace")
 			comma := ", "
 			if arg == "" {
 				comma = ""
